@@ -60,7 +60,7 @@ def meta(tier):
                 'origins, zone switch, alignment gap, #mute/#unmute, zero-length fill, included file, label, a line emitting 00 and ff '
                 'bytes) up to the depth bound that the reference accepts, under address widths 8/10/12/16/24/32 (two of them with '
                 'predefined data blocks, one with two different blocks); per program 6 executions: two images (fill 00 / ff) giving the exact address->byte map, and '
-                'the four formats, each decoded independently, plus two images of the window that starts inside the first multi-byte statement (-s), which must hold the same bytes from there on; the listing rows are also compared with the reference lines '
+                'the four formats, each decoded independently, plus two images of the window that starts inside the first multi-byte statement (-s), which must hold the same bytes from there on, and the listing / hex dump / Intel HEX requested together with that window, which must still agree with the image from the window start on; the listing rows are also compared with the reference lines '
                 '(each statement once, its address, its bytes, nothing for muted lines); non-trivial = program with a gap, a muted '
                 'byte or a line longer than 6 bytes; plus (16-bit) every history up to depth 5 (thorough 6) over {#mute, #unmute, a byte, an include of a plain file, of a file that unmutes, of a file that mutes}: '
                 'mutes are counted across include boundaries in both directions; states = distinct memory maps',
@@ -101,6 +101,28 @@ def check_formats(spec, outs):
             bad = sorted(a for a in set(memw) | set(want) if memw.get(a) != want.get(a))[:4]
             return (f'the image for -s {n0} and the formats describe different memory at {[hex(a) for a in bad]}: image '
                     f'{[memw.get(a) for a in bad]}, formats and full image {[want.get(a) for a in bad]}')
+    if spec.get('window_start') is not None and len(outs) >= 12:
+        # ... and the formats requested together with that window still describe, from the window start on, what the image holds
+        # (what they say about addresses below the window is not judged)
+        n0 = spec['window_start']
+        want = {a: b for a, b in mem.items() if a >= n0}
+        for fmt, o in zip(FORMATS, outs[8:12]):
+            try:
+                if fmt == 'listing':
+                    got, _ = F.decode_listing(o.pretty)
+                elif fmt == 'hex':
+                    got = F.decode_hex_dump(o.pretty)
+                elif fmt == 'intel_hex':
+                    got = F.decode_intel_hex(o.pretty)
+                else:
+                    continue        # the compact format does not state where its first line lies
+            except F.FormatError as e:
+                return f'{fmt} with -s {n0}: {e}'
+            got = {a: b for a, b in got.items() if a >= n0}
+            if got != want:
+                bad = sorted(a for a in set(got) | set(want) if got.get(a) != want.get(a))[:4]
+                return (f'{fmt} requested with -s {n0} describes different memory than the image at {[hex(a) for a in bad]}: '
+                        f'{fmt} {[got.get(a) for a in bad]}, image {[want.get(a) for a in bad]}')
     for fmt, o in zip(FORMATS, outs[2:6]):
         try:
             if fmt == 'listing':
@@ -207,6 +229,7 @@ def examine(acc, isa, params, bits, h, files, sample):
     wstart = multi[0].addr + 1 if multi else None          # strictly inside the first multi-byte statement
     if wstart is not None:
         cases += [Case(isa, text, fill=0, start=wstart), Case(isa, text, fill=0xFF, start=wstart)]
+        cases += [Case(isa, text, pretty=f, start=wstart) for f in FORMATS]
     outs = [acc.run(c) for c in cases]
     acc.transition(len(cases))
     rows = []
